@@ -444,6 +444,16 @@ class Fn:
                 return Chain(("format", fa, self))
         if name in PASS_FN and len(args) == 1:
             return t(args[0])
+        if self.line_hook and args and depth < 30:
+            # a private helper of the reader that takes the line and returns one of its accessors (`read_header(header)` ->
+            # `header.into_namespaces()`): traced into, with the parameters standing for the arguments
+            cb = self.crate.by_key.get(c.get("inst_key") or c.get("key"))
+            if cb is not None and isinstance(cb.get("body"), dict) and cb["key"] != self.body["key"] and len(cb.get("params") or []) == len(args) \
+                    and any(is_line_ty(p_.get("ty"), ("TinyLine", "EnigmaLine")) for p_ in cb.get("params") or []):
+                callee = Fn(self.crate, cb, subst={i: (self, a) for i, a in enumerate(args)}, line_hook=self.line_hook, strict=self.strict)
+                ch = callee.trace(callee.root, depth + 1)
+                if ch.root[0] == "line":
+                    return ch
         if args:
             extra = [t(a) for a in args[1:]]
             return t(args[0]).plus(("call", name, extra, c.get("inst_key") or c.get("key")))
